@@ -45,6 +45,11 @@ fn compile(text: &str, pretty: bool) -> Artefacts {
     };
     let root = quote::quote! { ::dfir_rs };
     let timing = std::env::var_os("VERIF_TIMING").is_some();
+    if std::env::var_os("VERIF_E7_DEBUG_KEYS").is_some() {
+        // shows which RandomState keys this compile thread drew (debugging aid for the seam)
+        let s: std::collections::HashSet<u32> = (0..12).collect();
+        eprintln!("debug-keys: {:?}", s.iter().collect::<Vec<_>>());
+    }
     let t0 = std::time::Instant::now();
     match build_dfir_code(parsed, &root) {
         Ok(BuildDfirCodeOutput { partitioned_graph, code, diagnostics: _ }) => {
